@@ -1,10 +1,10 @@
 package main
 
 import (
-	"regexp"
 	"fmt"
 	"go/constant"
 	"go/token"
+	"regexp"
 	"regexp/syntax"
 	"strings"
 
